@@ -776,6 +776,7 @@ def register_read(R):
             for fcnt, mask in E.ghost.get("cnt-functions", []):
                 E.assume(z3.ForAll([a, b], z3.Implies(z3.And(0 <= a, a < b, b < T.n, to_z3(mask.get(a), "bool"), to_z3(mask.get(b), "bool")), fcnt(T.n) >= 2)))
                 E.assumptions.add("assumed-lemma:count-of-two-marked-positions-is-at-least-2 (induction on the array length) instantiated for the root-row mask in read_swc")
+        E.ghost["table-handed-to-the-sort"] = snapshot(df)  # what the sorted-read clauses compare the result with
         E.assume(K5.P0 == r0)
         E.assume(z3.ForAll([p], K5.posof(p) == K18.lastrow(E, T.ID, T.n)(p)))
         E.assume(z3.ForAll([p], K5.pp(p) == T.e(p)))
@@ -922,6 +923,68 @@ def register_read(R):
 
         return f
 
+    def post_sorted(which):
+        """the sorted-read clause of the property, on the RESULT of read_swc(sort_nodes=True) (not only "sort_nodes_ was called"): the returned
+        table is a relabelling of the table handed to the sort -- which, without a root repair, is the file's table row by row -- through a
+        one-to-one map sigma between returned rows and file rows (C05's index array; inverse: C05's ghost `newof`):
+        id = row position, root in row 0, parents before children, every attribute column read through sigma, and the parent ID of
+        file row sigma[k] is the ID carried by file row sigma[parent of k]: the returned tree is isomorphic to the graph of the file."""
+        def g(E, v, o):
+            if not o["sort_nodes"]:
+                return True
+            df, _ = v["result"]
+            if not hasattr(df, "cols") or any(c not in df.cols for c in NCOLS):
+                return False
+            n1 = zint(df.n)
+            ID1, PID1 = df.cols[names.id].arr, df.cols[names.pid].arr
+            k, q = z3.Int(fresh_name("k")), z3.Int(fresh_name("q"))
+            sel = z3.Select
+            R1 = lambda t: z3.And(t >= 0, t < n1)
+            p = parsed(E)
+            if p is None:
+                return False
+            repaired = bool(calls(E, "mark_roots_as_somas_") or calls(E, "link_roots_to_nearest_"))
+            # ---- about the result alone
+            if which == "id-column-equals-row-position":
+                rows_kept = n1 == zint(p["df0"].n)
+                return z3.And(rows_kept, z3.ForAll([k], z3.Implies(R1(k), sel(ID1, k) == k)))
+            if which == "root-is-row-0-and-parents-precede-children":
+                return z3.And(sel(PID1, 0) == -1, z3.ForAll([k], z3.Implies(z3.And(0 < k, k < n1), z3.And(0 <= sel(PID1, k), sel(PID1, k) < k))))
+            # ---- relative to the table handed to the sort, through the bijection
+            T0, w = E.ghost.get("table-handed-to-the-sort"), E.ghost.get("sort-witness")
+            if T0 is None or w is None or any(c not in T0.cols for c in NCOLS):
+                return False  # no sort_nodes_ call on this path: no witness of the relabelling
+            sg = w["__result__"][1].arr
+            ID0, PID0 = T0.cols[names.id].arr, T0.cols[names.pid].arr
+            if which == "one-to-one-between-returned-rows-and-file-rows":
+                return z3.And(zint(T0.n) == n1,
+                              z3.ForAll([k], z3.Implies(R1(k), z3.And(R1(sel(sg, k)), K5.newof(sel(sg, k)) == k))),
+                              z3.ForAll([q], z3.Implies(R1(q), z3.And(R1(K5.newof(q)), sel(sg, K5.newof(q)) == q))))
+            if which == "every-attribute-column-follows-the-bijection":
+                out = []
+                for c in NCOLS:
+                    if c not in (names.id, names.pid):
+                        out.append(z3.ForAll([k], z3.Implies(R1(k), sel(df.cols[c].arr, k) == sel(T0.cols[c].arr, sel(sg, k)))))
+                return z3.And(set(df.cols) == set(T0.cols), *out)
+            if which == "parent-ids-read-through-the-bijection-name-the-file's-parents":
+                return z3.And(sel(PID0, sel(sg, 0)) == -1,
+                              z3.ForAll([k], z3.Implies(z3.And(0 < k, k < n1), sel(PID0, sel(sg, k)) == sel(ID0, sel(sg, sel(PID1, k))))))
+            if which == "without-root-repair-the-sorted-table-is-the-file's-row-by-row":
+                if repaired:
+                    return True
+                f = o["swc_file"].z
+                out = [zint(T0.n) == rows(f)]
+                for c in NCOLS:
+                    out.append(z3.ForAll([k], z3.Implies(z3.And(k >= 0, k < rows(f)), sel(T0.cols[c].arr, k) == field(0, LINE(f, RLINE(f, k)), NCOLS.index(c)))))
+                return z3.And(*out)
+            raise KeyError(which)
+
+        return g
+
+    SORTED_READ = ["id-column-equals-row-position", "root-is-row-0-and-parents-precede-children", "one-to-one-between-returned-rows-and-file-rows",
+                   "every-attribute-column-follows-the-bijection", "parent-ids-read-through-the-bijection-name-the-file's-parents",
+                   "without-root-repair-the-sorted-table-is-the-file's-row-by-row"]
+
     def may_raise(E, v, o):
         f = v["swc_file"].z
         j = z3.Int(fresh_name("j"))
@@ -959,6 +1022,9 @@ def register_read(R):
                 "OSError": ("unreadable-source", lambda E, v, o: UNREADABLE(v["swc_file"].z))},
         ensures=[
             ("returns-the-parsed-table-and-the-untouched-comment-list", site(post_same_objects)),
+        ] + [("sorted-read/" + w, site(post_sorted(w))) for w in SORTED_READ] + [
+            # the sorted-read clauses (about the returned table itself) stand BEFORE the clauses about which helper ran: a short-cut is then
+            # judged by what it returns, not only by the absence of the expected call
             ("root-repair-only-with-several-roots-and-only-the-requested-one", site(post_repair)),
             ("sort-nodes-else-reset-index-else-neither", site(post_renumber)),
             ("no-other-call-touches-the-table(warnings-only-warn)", site(post_nothing_else)),
